@@ -341,6 +341,8 @@ def pyMulNative (h : Heap) (a b : Val) : R (Val × Heap) :=
         | .ref x => (match h.get? x with | some (.list xs) => xs.length | _ => 0)
         | _ => 0
       let cnt : Int := match toInt? a, toInt? b with | some n, _ => n | _, some n => n | _, _ => 0
+      -- a repetition count that does not fit a machine index is an OverflowError in CPython (also when negative)
+      if cnt ≥ 9223372036854775808 ∨ cnt < -9223372036854775808 then U "repeat-index-overflow" else
       if huge (max (lenOf a) (lenOf b)) cnt then U "repeat-huge" else
       match a, b with
       | .str s, .int n => .ok (.str (rep s n), h)
